@@ -147,6 +147,24 @@ int main(int argc, char **argv)
                     vh_evals(2);
                     if (g1 != want || g2 != want)
                         vh_fail(H[h].name, "placement: %s(len=%u, seed=0x%x, align=%d) gives 0x%08x / 0x%08x with different surrounding bytes, reference 0x%08x", H[h].name, n, seed, al, g1, g2, want);
+                    /* layout 4: the same address, length and seed with different contents in consecutive calls -- the value is a
+                     * function of the bytes, not of where they are or of what was hashed there before */
+                    if (nbytes > 0) {
+                        uint8_t *k4 = sur + 32 + al;
+                        size_t at = (size_t) ((unsigned) (h * 7 + al * 3 + L) % nbytes);
+                        uint8_t old = k4[at];
+                        k4[at] = (uint8_t) (old ^ 0x5b);
+                        uint8_t *c2 = malloc(nbytes); memcpy(c2, k4, nbytes);
+                        uint32_t want2 = H[h].r(c2, n, seed), g4 = H[h].f(k4, n, seed);
+                        k4[at] = old;
+                        uint32_t g5 = H[h].f(k4, n, seed);
+                        free(c2);
+                        vh_evals(2);
+                        vh_count("same_address_changed_content_evals", 2);
+                        if (g4 != want2 || g5 != want)
+                            vh_fail(H[h].name, "history: %s(len=%u, seed=0x%x, align=%d) at one address: after changing byte %zu the value is 0x%08x (reference 0x%08x), after changing it back 0x%08x (reference 0x%08x)",
+                                    H[h].name, n, seed, al, at, g4, want2, g5, want);
+                    }
                     free(sur);
                     vh_cov(vh_mix(vh_mix((uint64_t) h * 8 + al, (uint64_t) L), (uint64_t) sc * 4 + cc));
                 }
